@@ -7,12 +7,17 @@ CONSTANTS
   ImgLists <- Lists3x2
   PubPaths = {1, 2}
   MaxRuns = 2
-  Modes = {"image", "sign"}
+  Modes = {"image", "sign", "auth"}
+  Iters = {1, 2}
+  OutPaths = {0, 1, 2}
+  MaxSteps = 2
   Variant = "ok"
 INVARIANT HashInputOk
 INVARIANT SinglePub
 INVARIANT SigVerifies
 INVARIANT PrivNotWritten
 INVARIANT KeyFreshPerRun
+INVARIANT AuthBinds
+INVARIANT AuthFiles
 INVARIANT EmitB
 CHECK_DEADLOCK FALSE
